@@ -35,7 +35,7 @@ let () =
          let sents = if sent then List.mapi (fun i s -> (int_of_string s, i, -1)) (fst (take k rest)) else [] in
          let a = alg_of (int_of_string alg) and n = nat_of_int len in
          let reference = ref_mwm ltb stable sent a seqs sents n in
-         (match c9_obs ltb (0, -7, -7) (etype = "B" || etype = "M") stable sent a seqs sents n with
+         (match c9_obs ltb (0, -7, -7) (etype = "B" || etype = "M" || etype = "S") stable sent a seqs sents n with
           | None -> print_endline "MODEL-ERROR"
           | Some ((out, ret), cur) ->
             let b = Buffer.create 256 in
